@@ -8,11 +8,10 @@ of the vehicle restrictions are input tables (computed by the harness with the r
 
 This property is thin on proof content: once the distances are tables, "nearest" is "head of a sorted
 list" and the tolerance rule is one comparison.  What the theorems do pin down is *which* comparison the
-code makes, in which unit, on which quantity — and that is where the edge matcher is wrong
-(`edge_tolerance_counterexample`): it compares the squared coordinate-DEGREE distance with the tolerance
-in METRES.  The vertex matcher converts correctly but rejects a distance exactly AT the tolerance
-(`vertex_tolerance_boundary_counterexample`).  Both tolerance clauses are therefore `_partial`; everything
-else (nearest, first admissible, other fields, optional destination) is proved in full.
+code makes, in which unit, on which quantity.  (Until it was fixed the edge matcher compared the squared
+coordinate-DEGREE distance with the tolerance in METRES; the old witness is kept as a regression `example`.)
+The vertex matcher rejects a distance exactly AT the tolerance (`vertex_tolerance_boundary_counterexample`),
+so its tolerance clause is `_partial`; everything else is proved in full.
 
 Outside the theorems: the f32 rounding of coordinates and of `haversine`, the geometry behind `distance_2`
 (for edges it is the distance to the CENTROID of the linestring, not to the linestring), `rstar` itself.
@@ -202,50 +201,49 @@ theorem vertex_tolerance_in_metres (t g : α) (u : DistanceUnit) :
 /-! ### nearest admissible edge -/
 
 /-- C16 (edge, first admissible): a match is the first admissible candidate of the nearest-first list;
-every candidate before it was inadmissible, and it and all of them passed the code's tolerance test. -/
-theorem edge_match_first_admissible (r32 : α → α) (tol : Option (α × DistanceUnit)) (classes : Option (List Nat))
+every candidate before it was inadmissible, and it passed the tolerance test. -/
+theorem edge_match_first_admissible (tol : Option (α × DistanceUnit)) (classes : Option (List Nat))
     (hasLookup : Bool) (cands : List (ECand α)) (id : Nat)
-    (h : searchEdge r32 tol classes hasLookup cands = .ok (some id)) :
+    (h : searchEdge tol classes hasLookup cands = .ok (some id)) :
     ∃ pre c post, cands = pre ++ c :: post ∧ c.id = id ∧ Admissible classes hasLookup c ∧
-      (∀ c' ∈ pre, ¬ Admissible classes hasLookup c') ∧
-      (∀ c' ∈ pre ++ [c], withinTolerance r32 tol c'.d2 = true) := by
+      (∀ c' ∈ pre, ¬ Admissible classes hasLookup c') ∧ withinTolerance tol c = .ok true := by
   induction cands with
   | nil => simp [searchEdge] at h
   | cons c rest ih =>
     unfold searchEdge at h
     split at h
-    · next hw =>
-      split at h
-      · cases h
-      · next vc hvc =>
-        split at h
-        · next hboth =>
-          injection h with h; injection h with h
-          simp only [Bool.and_eq_true] at hboth
-          refine ⟨[], c, rest, rfl, h, ⟨by rw [hvc, hboth.1], hboth.2⟩, by simp, by simpa using hw⟩
-        · next hboth =>
-          obtain ⟨pre, c1, post, rfl, hid, hadm, hpre, hwt⟩ := ih h
-          refine ⟨c :: pre, c1, post, rfl, hid, hadm, ?_, ?_⟩
-          · intro c' hc'
-            rcases List.mem_cons.mp hc' with rfl | hm
-            · rintro ⟨h1, h2⟩
-              rw [hvc] at h1; injection h1 with h1
-              apply hboth; simp [h1, h2]
-            · exact hpre c' hm
-          · intro c' hc'
-            rcases List.mem_cons.mp hc' with rfl | hm
-            · exact hw
-            · exact hwt c' hm
     · cases h
+    · next vc hvc =>
+      split at h
+      · next hboth =>
+        simp only [Bool.and_eq_true] at hboth
+        split at h
+        · cases h
+        · next w hw =>
+          split at h
+          · next hwt =>
+            injection h with h; injection h with h
+            subst hwt
+            exact ⟨[], c, rest, rfl, h, ⟨by rw [hvc, hboth.1], hboth.2⟩, by simp, hw⟩
+          · cases h
+      · next hboth =>
+        obtain ⟨pre, c1, post, rfl, hid, hadm, hpre, hwt⟩ := ih h
+        refine ⟨c :: pre, c1, post, rfl, hid, hadm, ?_, hwt⟩
+        intro c' hc'
+        rcases List.mem_cons.mp hc' with rfl | hm
+        · rintro ⟨h1, h2⟩
+          rw [hvc] at h1; injection h1 with h1
+          apply hboth; simp [h1, h2]
+        · exact hpre c' hm
 
 /-- C16 (edge, nearest admissible): on a nearest-first list the match is admissible and no admissible
 candidate is strictly nearer (under the plugin's distance measure) -/
-theorem edge_match_is_nearest_admissible (r32 : α → α) (tol : Option (α × DistanceUnit))
+theorem edge_match_is_nearest_admissible (tol : Option (α × DistanceUnit))
     (classes : Option (List Nat)) (hasLookup : Bool) (cands : List (ECand α)) (id : Nat)
-    (hs : Sorted ECand.d2 cands) (h : searchEdge r32 tol classes hasLookup cands = .ok (some id)) :
+    (hs : Sorted ECand.d2 cands) (h : searchEdge tol classes hasLookup cands = .ok (some id)) :
     ∃ c ∈ cands, c.id = id ∧ Admissible classes hasLookup c ∧
       ∀ c' ∈ cands, Admissible classes hasLookup c' → c.d2 ≤ c'.d2 := by
-  obtain ⟨pre, c, post, rfl, hid, hadm, hpre, _⟩ := edge_match_first_admissible r32 tol classes hasLookup cands id h
+  obtain ⟨pre, c, post, rfl, hid, hadm, hpre, _⟩ := edge_match_first_admissible tol classes hasLookup cands id h
   refine ⟨c, by simp, hid, hadm, ?_⟩
   intro c' hc' hadm'
   rcases List.mem_append.mp hc' with hm | hm
@@ -257,14 +255,14 @@ theorem edge_match_is_nearest_admissible (r32 : α → α) (tol : Option (α × 
 search from the origin and — if the query has a destination — `destination_edge` that of the search from
 the destination, both run with the road classes read from the query (`edge_match_is_nearest_admissible`
 says what a search result is). -/
-theorem edge_process_writes_matches (r32 : α → α) (tol : Option (α × DistanceUnit))
+theorem edge_process_writes_matches (tol : Option (α × DistanceUnit))
     (mapping : List (String × Nat)) (hasLookup : Bool) (q : Json) (oc dc : List (ECand α))
-    (hok : (edgeProcess r32 tol mapping hasLookup q oc dc).err = none) :
+    (hok : (edgeProcess tol mapping hasLookup q oc dc).err = none) :
     ∃ classes eo, readRoadClasses mapping q = .ok classes ∧
-      searchEdge r32 tol classes hasLookup oc = .ok (some eo) ∧
-      (edgeProcess r32 tol mapping hasLookup q oc dc).query.get? "origin_edge" = some (idJson eo) ∧
-      (destinationCoordinate q = .ok true → ∃ ed, searchEdge r32 tol classes hasLookup dc = .ok (some ed) ∧
-        (edgeProcess r32 tol mapping hasLookup q oc dc).query.get? "destination_edge" = some (idJson ed)) := by
+      searchEdge tol classes hasLookup oc = .ok (some eo) ∧
+      (edgeProcess tol mapping hasLookup q oc dc).query.get? "origin_edge" = some (idJson eo) ∧
+      (destinationCoordinate q = .ok true → ∃ ed, searchEdge tol classes hasLookup dc = .ok (some ed) ∧
+        (edgeProcess tol mapping hasLookup q oc dc).query.get? "destination_edge" = some (idJson ed)) := by
   unfold edgeProcess at hok ⊢
   cases hr : readRoadClasses mapping q with
   | error e => simp [hr] at hok
@@ -275,7 +273,7 @@ theorem edge_process_writes_matches (r32 : α → α) (tol : Option (α × Dista
       cases hd : destinationCoordinate q with
       | error e => simp [hr, ho, hd] at hok
       | ok hasDst =>
-        cases hso : searchEdge r32 tol classes hasLookup oc with
+        cases hso : searchEdge tol classes hasLookup oc with
         | error e => simp [hr, ho, hd, searchEdge!, hso] at hok
         | ok ro =>
           cases ro with
@@ -290,7 +288,7 @@ theorem edge_process_writes_matches (r32 : α → α) (tol : Option (α × Dista
                 simp only [searchEdge!, hso, addField_obj, Bool.false_eq_true, if_false]
                 exact lookup_insertKv_same _ _ _
               | true =>
-                cases hsd : searchEdge r32 tol classes hasLookup dc with
+                cases hsd : searchEdge tol classes hasLookup dc with
                 | error e => simp [hr, ho, hd, searchEdge!, hso, hsd] at hok
                 | ok rd =>
                   cases rd with
@@ -307,102 +305,77 @@ theorem edge_process_writes_matches (r32 : α → α) (tol : Option (α × Dista
             | str s => simp [numField, originCoordinate, Json.get?] at ho
             | arr xs => simp [numField, originCoordinate, Json.get?] at ho
 
-/-! ### edge tolerance — as the code really behaves -/
+/-! ### edge tolerance -/
 
-/-
-FULL STATEMENT of the property's tolerance clause for edges (FALSE of the code, see
-`edge_tolerance_counterexample`):
+/-- the search reaches the first admissible candidate and decides on it alone -/
+theorem searchEdge_first_admissible (tol : Option (α × DistanceUnit)) (classes : Option (List Nat))
+    (hasLookup : Bool) (pre post : List (ECand α)) (c : ECand α)
+    (hcls : ∀ c' ∈ pre, c'.cls ≠ none) (hpre : ∀ c' ∈ pre, ¬ Admissible classes hasLookup c')
+    (hadm : Admissible classes hasLookup c) :
+    searchEdge tol classes hasLookup (pre ++ c :: post) =
+      match withinTolerance tol c with
+      | .error e => .error e
+      | .ok w => if w then .ok (some c.id) else .ok none := by
+  induction pre with
+  | nil =>
+    obtain ⟨h1, h2⟩ := hadm
+    simp only [List.nil_append, searchEdge, h1, h2, Bool.and_self, if_true]
+    cases withinTolerance tol c <;> rfl
+  | cons p rest ih =>
+    simp only [List.cons_append]
+    unfold searchEdge
+    cases hvc : validClass classes hasLookup p with
+    | error e => exact absurd (validClass_error classes hasLookup p e hvc).2.2.2 (hcls p List.mem_cons_self)
+    | ok vc =>
+      simp only
+      split
+      · next hboth =>
+        exfalso
+        simp only [Bool.and_eq_true] at hboth
+        exact hpre p List.mem_cons_self ⟨by rw [hvc, hboth.1], hboth.2⟩
+      · exact ih (fun c' hc' => hcls c' (List.mem_cons_of_mem _ hc')) (fun c' hc' => hpre c' (List.mem_cons_of_mem _ hc'))
 
-  for the great-circle distance `gc c` in metres from the query coordinate to candidate `c`,
-  `searchEdge r32 (some (t, u)) classes hasLookup cands = .ok (some id)` ↔
-    the nearest admissible candidate `c` satisfies `gc c ≤ u.convert .meters t`.
-
-What the code does instead is compare `c.d2` — squared coordinate DEGREES — with the tolerance in metres.
-The theorem below states exactly that rule; it is the property's clause only under the (absurd) reading
-that a squared degree is a metre.  Missing: any relation between the accepted candidates and their
-great-circle distance.
--/
-
-/-- C16 (edge, tolerance, PARTIAL — the rule the code implements, not the property's): on a nearest-first
-list whose road classes are all present, there is a match exactly when some admissible candidate has
-`d2 ≤ r32 (tolerance converted to metres)`, `d2` being the SQUARED COORDINATE-DEGREE distance. -/
-theorem edge_tolerance_partial (r32 : α → α) (t : α) (u : DistanceUnit) (classes : Option (List Nat))
-    (hasLookup : Bool) (cands : List (ECand α)) (hs : Sorted ECand.d2 cands)
-    (hcls : ∀ c ∈ cands, c.cls ≠ none) :
-    (∃ id, searchEdge r32 (some (t, u)) classes hasLookup cands = .ok (some id)) ↔
-      ∃ c ∈ cands, Admissible classes hasLookup c ∧ c.d2 ≤ r32 (u.convert DistanceUnit.meters t) := by
+/-- C16 (edge, tolerance): let `c` be the nearest admissible candidate (the first admissible one of the
+nearest-first list) and `g` its great-circle distance in metres.  With tolerance `t` in unit `u` the search
+matches `c` when `convert(g, metres → u) ≤ t` and matches nothing (the plugin then answers with an error)
+when it is beyond. -/
+theorem edge_tolerance (t : α) (u : DistanceUnit) (classes : Option (List Nat)) (hasLookup : Bool)
+    (pre post : List (ECand α)) (c : ECand α) (g : α)
+    (hcls : ∀ c' ∈ pre, c'.cls ≠ none) (hpre : ∀ c' ∈ pre, ¬ Admissible classes hasLookup c')
+    (hadm : Admissible classes hasLookup c) (hg : c.gc = some g) :
+    (DistanceUnit.meters.convert u g ≤ t →
+      searchEdge (some (t, u)) classes hasLookup (pre ++ c :: post) = .ok (some c.id)) ∧
+    (t < DistanceUnit.meters.convert u g →
+      searchEdge (some (t, u)) classes hasLookup (pre ++ c :: post) = .ok none) := by
+  rw [searchEdge_first_admissible _ classes hasLookup pre post c hcls hpre hadm]
   constructor
-  · rintro ⟨id, h⟩
-    obtain ⟨pre, c, post, rfl, _, hadm, _, hwt⟩ := edge_match_first_admissible r32 _ classes hasLookup cands id h
-    refine ⟨c, by simp, hadm, ?_⟩
-    have := hwt c (by simp)
-    simpa [withinTolerance] using this
-  · rintro ⟨cstar, hmem, hadm, hle⟩
-    induction cands with
-    | nil => simp at hmem
-    | cons c rest ih =>
-      have hc : c.d2 ≤ r32 (u.convert DistanceUnit.meters t) := le_trans (hs.head_le cstar hmem) hle
-      have hw : withinTolerance r32 (some (t, u)) c.d2 = true := by simpa [withinTolerance] using hc
-      unfold searchEdge
-      rw [if_pos hw]
-      cases hvc : validClass classes hasLookup c with
-      | error e =>
-        exact absurd (validClass_error classes hasLookup c e hvc).2.2.2 (hcls c List.mem_cons_self)
-      | ok vc =>
-        simp only
-        split
-        · exact ⟨c.id, rfl⟩
-        · next hboth =>
-          rcases List.mem_cons.mp hmem with rfl | hm
-          · exfalso; apply hboth
-            obtain ⟨h1, h2⟩ := hadm
-            rw [hvc] at h1; injection h1 with h1
-            simp [h1, h2]
-          · exact ih hs.tail (fun c hc => hcls c (List.mem_cons_of_mem _ hc)) hm
+  · intro h; simp [withinTolerance, hg, h]
+  · intro h; simp [withinTolerance, hg, not_le.mpr h]
 
-/-- with a tolerance of ONE METRE the code's test lets through every candidate whose squared coordinate
-distance is at most 1 — i.e. anything within one DEGREE (about 111 km) of the query -/
-theorem edge_tolerance_one_metre_accepts_one_degree (d2 : α) (h : d2 ≤ 1) :
-    withinTolerance (fun x => x) (some ((1 : α), DistanceUnit.meters)) d2 = true := by
-  simp [withinTolerance, DistanceUnit.convert, DistanceUnit.factor, Factor.apply, h]
-
-/-- C16 (edge, tolerance) is VIOLATED by the code.  Witness (corpus case #1 of the harness, where the real
-`EdgeRtreeInputPlugin` answered `origin_edge = 0`): one edge whose centroid is (0°, 0°), the query at
-(0.003°, 0°) — `distance_2 = 0.000009` deg², great-circle distance 333.58 m (real `haversine`) — and a
-configured tolerance of 1 metre.  The model, like the code, matches the edge although it lies more than
-three hundred times the tolerance away: the full statement "a match lies within the tolerance in metres"
-is false. -/
-theorem edge_tolerance_counterexample :
-    ¬ ∀ (t : ℚ) (u : DistanceUnit) (cands : List (ECand ℚ)) (id : Nat),
-        searchEdge (fun x => x) (some (t, u)) none false cands = .ok (some id) →
-        ∀ c ∈ cands, c.id = id → ∀ g, c.gc = some g → g ≤ u.convert DistanceUnit.meters t := by
-  intro h
-  have h1 := h 1 .meters [⟨0, 9 / 1000000, none, true, some (33358 / 100)⟩] 0
-    (by simp [searchEdge, withinTolerance, validClass, DistanceUnit.convert, DistanceUnit.factor, Factor.apply]; norm_num)
-    _ List.mem_cons_self rfl _ rfl
-  simp [DistanceUnit.convert, DistanceUnit.factor, Factor.apply] at h1
-  norm_num at h1
+/-- regression: the witness of the former defect `edge-match/tolerance-units` (an edge 333.58 m away,
+`distance_2 = 0.000009` deg², tolerance 1 m) is no longer matched -/
+example : searchEdge (some ((1 : ℚ), DistanceUnit.meters)) none false
+    [⟨0, 9 / 1000000, none, true, some (33358 / 100)⟩] = .ok none := by
+  simp [searchEdge, withinTolerance, validClass, DistanceUnit.convert, DistanceUnit.factor, Factor.apply]; norm_num
 
 /-- without a configured tolerance the edge matcher returns the first admissible candidate whenever there
-is one (the tolerance clause is then vacuous and the property holds) -/
-theorem edge_no_tolerance_matches (r32 : α → α) (classes : Option (List Nat)) (hasLookup : Bool)
+is one -/
+theorem edge_no_tolerance_matches (classes : Option (List Nat)) (hasLookup : Bool)
     (cands : List (ECand α)) (hcls : ∀ c ∈ cands, c.cls ≠ none)
     (hex : ∃ c ∈ cands, Admissible classes hasLookup c) :
-    ∃ id, searchEdge r32 none classes hasLookup cands = .ok (some id) := by
+    ∃ id, searchEdge none classes hasLookup cands = .ok (some id) := by
   obtain ⟨cstar, hmem, hadm⟩ := hex
   induction cands with
   | nil => simp at hmem
   | cons c rest ih =>
     unfold searchEdge
-    have hw : withinTolerance r32 (none : Option (α × DistanceUnit)) c.d2 = true := rfl
-    rw [if_pos hw]
     cases hvc : validClass classes hasLookup c with
     | error e =>
       exact absurd (validClass_error classes hasLookup c e hvc).2.2.2 (hcls c List.mem_cons_self)
     | ok vc =>
       simp only
       split
-      · exact ⟨c.id, rfl⟩
+      · exact ⟨c.id, by simp [withinTolerance]⟩
       · next hboth =>
         rcases List.mem_cons.mp hmem with rfl | hm
         · exfalso; apply hboth
@@ -456,9 +429,9 @@ theorem vertex_error_writes_at_most_origin (tol : Option (α × DistanceUnit)) (
         · simp_all
 
 /-- C16 (other fields, edge matcher): as above for `origin_edge` / `destination_edge`. -/
-theorem edge_other_fields_unchanged (r32 : α → α) (tol : Option (α × DistanceUnit))
+theorem edge_other_fields_unchanged (tol : Option (α × DistanceUnit))
     (mapping : List (String × Nat)) (hasLookup : Bool) (q : Json) (oc dc : List (ECand α)) :
-    SameOthers ["origin_edge", "destination_edge"] q (edgeProcess r32 tol mapping hasLookup q oc dc).query := by
+    SameOthers ["origin_edge", "destination_edge"] q (edgeProcess tol mapping hasLookup q oc dc).query := by
   unfold edgeProcess
   split
   · exact SameOthers.refl _ _
@@ -485,10 +458,10 @@ theorem edge_other_fields_unchanged (r32 : α → α) (tol : Option (α × Dista
 /-- C16 (edge matcher, an error is never a match): when the edge plugin fails, the query is exactly as it
 was — no `origin_edge` / `destination_edge` is written.  (The vertex plugin differs: it writes
 `origin_vertex` before it looks at the destination, see `vertexProcess`.) -/
-theorem edge_error_leaves_query (r32 : α → α) (tol : Option (α × DistanceUnit))
+theorem edge_error_leaves_query (tol : Option (α × DistanceUnit))
     (mapping : List (String × Nat)) (hasLookup : Bool) (q : Json) (oc dc : List (ECand α))
-    (h : (edgeProcess r32 tol mapping hasLookup q oc dc).err ≠ none) :
-    (edgeProcess r32 tol mapping hasLookup q oc dc).query = q := by
+    (h : (edgeProcess tol mapping hasLookup q oc dc).err ≠ none) :
+    (edgeProcess tol mapping hasLookup q oc dc).query = q := by
   unfold edgeProcess at h ⊢
   split
   · rfl
@@ -537,11 +510,11 @@ theorem vertex_destination_optional (tol : Option (α × DistanceUnit)) (q : Jso
         simp only [Bool.false_eq_true, if_false]
         exact matchVertexInto_sameOthers (by decide) hm
 
-theorem edge_destination_optional (r32 : α → α) (tol : Option (α × DistanceUnit))
+theorem edge_destination_optional (tol : Option (α × DistanceUnit))
     (mapping : List (String × Nat)) (hasLookup : Bool) (q : Json) (oc dc dc' : List (ECand α))
     (hd : q.get? "destination_x" = none ∧ q.get? "destination_y" = none) :
-    edgeProcess r32 tol mapping hasLookup q oc dc = edgeProcess r32 tol mapping hasLookup q oc dc' ∧
-    SameOthers ["origin_edge"] q (edgeProcess r32 tol mapping hasLookup q oc dc).query := by
+    edgeProcess tol mapping hasLookup q oc dc = edgeProcess tol mapping hasLookup q oc dc' ∧
+    SameOthers ["origin_edge"] q (edgeProcess tol mapping hasLookup q oc dc).query := by
   have hd' := (destinationCoordinate_false_iff q).mpr hd
   constructor
   · unfold edgeProcess
@@ -587,13 +560,16 @@ example : ¬ Passes (some ((5 : ℚ), DistanceUnit.kilometers)) ⟨7, 1 / 100, s
   simp only [Option.some.injEq] at hg; subst hg
   simp [DistanceUnit.convert, DistanceUnit.factor, Factor.apply, Lit.lit] at h; norm_num at h
 -- edges: the nearest candidate is of an excluded road class, the second is admissible and is the match
-example : searchEdge (fun x => x) (none : Option (ℚ × DistanceUnit)) (some [1, 2]) true
+example : searchEdge (none : Option (ℚ × DistanceUnit)) (some [1, 2]) true
     [⟨4, 1 / 100, some 5, true, none⟩, ⟨9, 1 / 50, some 2, true, none⟩, ⟨1, 1 / 20, some 1, true, none⟩] = .ok (some 9) := by
   simp [searchEdge, withinTolerance, validClass]
--- the code's tolerance rule has both outcomes
-example : searchEdge (fun x => x) (some ((1 / 1000 : ℚ), DistanceUnit.meters)) none false
+-- the tolerance rule has both outcomes (11 km away: beyond 5 km, within 20 km)
+example : searchEdge (some ((5 : ℚ), DistanceUnit.kilometers)) none false
     [⟨4, 1 / 100, none, true, some 11119⟩] = .ok none := by
-  simp [searchEdge, withinTolerance, validClass, DistanceUnit.convert, DistanceUnit.factor, Factor.apply]; norm_num
+  simp [searchEdge, withinTolerance, validClass, DistanceUnit.convert, DistanceUnit.factor, Factor.apply, Lit.lit]; norm_num
+example : searchEdge (some ((20 : ℚ), DistanceUnit.kilometers)) none false
+    [⟨4, 1 / 100, none, true, some 11119⟩] = .ok (some 4) := by
+  simp [searchEdge, withinTolerance, validClass, DistanceUnit.convert, DistanceUnit.factor, Factor.apply, Lit.lit]; norm_num
 -- other fields: the example query keeps `model` between the two coordinates
 example : (vertexProcess (none : Option (ℚ × DistanceUnit)) exQuery exVerts []).query.get? "model" = some (.str "m") := by
   simp [vertexProcess, exQuery, exVerts, originCoordinate, numField, destinationCoordinate, Json.get?, Json.lookup,
